@@ -50,11 +50,19 @@ pub open spec fn av_from_dir(v: AvV, dir: PV, n: Seq<char>) -> Option<DefV> {
 pub open spec fn av_after_same(v: AvV, file: PV, n: Seq<char>) -> Option<DefV> {
     if pv_has_parent(file) && file.len() > 0 { av_from_dir(v, file.drop_last(), n) } else { av_plugin(v, n) }
 }
-/// the entry of the per-file view for name n (None: n is not offered).  Differences from op_resolve:
-///  * same file: the FIRST definition in registration order (op_resolve: last one of maximal line)
+/// the entry of the per-file view for name n (None: n is not offered).
+///  * same file: the same-file definition with the greatest line; ties: the LAST such in registration order
+///    (`.filter(same file).max_by_key(line)` returns the last maximum) — `best_same`, the very spec function
+///    op_resolve uses for its same-file case (since the repair of F-05a; before: the FIRST same-file definition)
+/// Remaining differences from op_resolve:
 ///  * import branch: ds[0] (op_resolve: first_match(ds, filter); equal for the trivial filter)
 ///  * a file without parent still gets plugin / third-party fixtures (op_resolve: None)
 pub open spec fn avail_pick(v: AvV, file: PV, n: Seq<char>) -> Option<DefV> {
+    or_else(best_same(bucket(v.defs, n), p_same(file, fs_true())), av_after_same(v, file, n))
+}
+/// what the view offered BEFORE the repair of F-05a: the FIRST same-file definition.  Kept as the reference point
+/// of the canaries (prelude/avail_l2.rs): nothing proved about the code may hold for this function.
+pub open spec fn avail_pick_first(v: AvV, file: PV, n: Seq<char>) -> Option<DefV> {
     or_else(first_match(bucket(v.defs, n), p_same(file, fs_true())), av_after_same(v, file, n))
 }
 
@@ -179,7 +187,8 @@ pub open spec fn avail_post(r: Seq<DefV>, v: AvV, file: PV) -> bool {
     &&& forall|n: Seq<char>| (#[trigger] avail_pick(v, file, n)) is Some ==> exists|k: int| 0 <= k < r.len() && (#[trigger] r[k]).name == n
 }
 
-// ---- a scan phase: `for entry in definitions { for def in entry.value() { if COND(def) && !seen(name) { push; insert } } }`
+// ---- a scan phase (own definitions of a conftest, plugins, third party):
+//      `for entry in definitions { for def in entry.value() { if COND(def) && !seen(name) { push; insert } } }`
 /// the phase takes, for every name not yet in the list, the first definition satisfying cond
 pub open spec fn phase_rel(v: AvV, cur: spec_fn(Seq<char>) -> Option<DefV>, cond: spec_fn(DefV) -> bool, nxt: spec_fn(Seq<char>) -> Option<DefV>) -> bool {
     forall|n: Seq<char>| #[trigger] cur(n) == or_else(first_match(bucket(v.defs, n), cond), nxt(n))
@@ -207,6 +216,44 @@ pub proof fn lemma_scan_done(v: AvV, pick: spec_fn(Seq<char>) -> Option<DefV>, a
 pub proof fn lemma_scan_end(v: AvV, pick: spec_fn(Seq<char>) -> Option<DefV>, av: Seq<DefV>, seen: Set<Seq<char>>, done: Set<Seq<char>>,
                             cur: spec_fn(Seq<char>) -> Option<DefV>, nxt: spec_fn(Seq<char>) -> Option<DefV>, cond: spec_fn(DefV) -> bool)
     requires step_inv(pick, av, seen, done, cur, nxt), phase_rel(v, cur, cond, nxt),
+        forall|n: Seq<char>| v.defs.contains_key(n) ==> done.contains(n),
+    ensures rest_inv(pick, av, seen, nxt)
+{
+    assert forall|n: Seq<char>| !done.contains(n) && !seen.contains(n) implies #[trigger] cur(n) == nxt(n) by {
+        assert(bucket(v.defs, n).len() == 0);
+    }
+    lemma_step_end(pick, av, seen, done, cur, nxt);
+}
+
+// ---- the same-file phase: `for entry in definitions { if let Some(def) = entry.value().iter().filter(COND).max_by_key(line)
+//      { if !seen(name) { push; insert } } }`
+/// the phase takes, for every name not yet in the list, the last definition of maximal line satisfying cond
+pub open spec fn phase_rel_best(v: AvV, cur: spec_fn(Seq<char>) -> Option<DefV>, cond: spec_fn(DefV) -> bool, nxt: spec_fn(Seq<char>) -> Option<DefV>) -> bool {
+    forall|n: Seq<char>| #[trigger] cur(n) == or_else(best_same(bucket(v.defs, n), cond), nxt(n))
+}
+pub proof fn lemma_best_push(v: AvV, pick: spec_fn(Seq<char>) -> Option<DefV>, av: Seq<DefV>, seen: Set<Seq<char>>, done: Set<Seq<char>>,
+                             cur: spec_fn(Seq<char>) -> Option<DefV>, nxt: spec_fn(Seq<char>) -> Option<DefV>, cond: spec_fn(DefV) -> bool,
+                             nm: Seq<char>, i: int)
+    requires wf_names(v.defs), step_inv(pick, av, seen, done, cur, nxt), phase_rel_best(v, cur, cond, nxt),
+        v.defs.contains_key(nm), !seen.contains(nm), is_best(v.defs[nm], cond, i),
+    ensures step_inv(pick, av.push(v.defs[nm][i]), seen.insert(nm), done, cur, nxt)
+{
+    lemma_best_idx(v.defs[nm], cond, i);
+    assert(cur(nm) == Some(v.defs[nm][i]));
+    lemma_step_push(pick, av, seen, done, cur, nxt, nm, v.defs[nm][i]);
+}
+pub proof fn lemma_best_done(v: AvV, pick: spec_fn(Seq<char>) -> Option<DefV>, av: Seq<DefV>, seen: Set<Seq<char>>, done: Set<Seq<char>>,
+                             cur: spec_fn(Seq<char>) -> Option<DefV>, nxt: spec_fn(Seq<char>) -> Option<DefV>, cond: spec_fn(DefV) -> bool, nm: Seq<char>)
+    requires step_inv(pick, av, seen, done, cur, nxt), phase_rel_best(v, cur, cond, nxt),
+        seen.contains(nm) || none_match(bucket(v.defs, nm), cond),
+    ensures step_inv(pick, av, seen, done.insert(nm), cur, nxt)
+{
+    if !seen.contains(nm) { lemma_best_none(bucket(v.defs, nm), cond); assert(cur(nm) == nxt(nm)); }
+    lemma_step_done(pick, av, seen, done, cur, nxt, nm);
+}
+pub proof fn lemma_best_end(v: AvV, pick: spec_fn(Seq<char>) -> Option<DefV>, av: Seq<DefV>, seen: Set<Seq<char>>, done: Set<Seq<char>>,
+                            cur: spec_fn(Seq<char>) -> Option<DefV>, nxt: spec_fn(Seq<char>) -> Option<DefV>, cond: spec_fn(DefV) -> bool)
+    requires step_inv(pick, av, seen, done, cur, nxt), phase_rel_best(v, cur, cond, nxt),
         forall|n: Seq<char>| v.defs.contains_key(n) ==> done.contains(n),
     ensures rest_inv(pick, av, seen, nxt)
 {
@@ -384,4 +431,36 @@ pub proof fn lemma_ff_best_step(ds: Seq<DefV>, p: spec_fn(DefV) -> bool, i: int)
 {
     assert(ds.take(i + 1).drop_last() =~= ds.take(i));
     assert(ds.take(i + 1).last() == ds[i]);
+}
+
+// ---------------------------------------------------------------------------------------------
+// `.filter(p).max_by_key(k)` of phase 1.  `@rename filter vp_filter` (prelude/hof.rs) pairs the slice iterator with
+// the filter closure; the selecting method then resolves, under its REAL name, to the inherent methods below, so a
+// change of the selecting method in /repo (max_by_key -> min_by_key) stays a decided question instead of a lost anchor.
+impl<'a, T, P: FnMut(&&'a T) -> bool> VpFilter<'a, T, P> {
+    /// the contract of hof.rs::vp_max_by_key, word for word — PROVED here from that (assumed) contract: nothing new is
+    /// assumed about `max_by_key`
+    pub fn max_by_key<B: Ord, F: FnMut(&&'a T) -> B>(self, f: F) -> (r: Option<&'a T>)
+        requires forall|x: &&'a T| #[trigger] call_requires(self.p, (x,)), forall|x: &&'a T| #[trigger] call_requires(f, (x,)),
+        ensures ({
+                let s = self.it.remaining();
+                let p = self.p;
+                &&& forall|j: int| 0 <= j < s.len() ==> call_ensures(p, (&#[trigger] s[j],), true) || call_ensures(p, (&s[j],), false)
+                &&& forall|j: int| 0 <= j < s.len() && call_ensures(p, (&#[trigger] s[j],), true) ==> call_ensures(f, (&s[j],), vp_key(f, &s[j]))
+                &&& match r {
+                    None => forall|i: int| 0 <= i < s.len() ==> !call_ensures(p, (&#[trigger] s[i],), true),
+                    Some(x) => ({
+                        let i = vp_witness(s, x);
+                        0 <= i < s.len() && s[i] == x && call_ensures(p, (&s[i],), true)
+                        && (forall|j: int| 0 <= j < s.len() && call_ensures(p, (&#[trigger] s[j],), true)
+                                ==> vp_le(vp_key(f, &s[j]), vp_key(f, &s[i])) && (j > i ==> !vp_le(vp_key(f, &s[i]), vp_key(f, &s[j]))))
+                    }),
+                }
+            }),
+    { self.vp_max_by_key(f) }
+    /// DELIBERATELY without a contract (nothing is assumed, the result is unconstrained): the real code does not call
+    /// it; a variant of the code that selects with `min_by_key` cannot establish the view's contract
+    #[verifier::external_body]
+    pub fn min_by_key<B: Ord, F: FnMut(&&'a T) -> B>(self, f: F) -> (r: Option<&'a T>)
+    { self.it.filter(self.p).min_by_key(f) }
 }
